@@ -251,9 +251,9 @@ class Trivia:
         return seen
 
 
-def run(ctx, rep):
+def run(ctx, rep, rid="R-C08-trivia"):
     g = ctx.peg
-    r = rep.rule("R-C08-trivia", "between any two consecutive IEC tokens of a production white space/comments are accepted: every adjacent pair of "
+    r = rep.rule(rid, "between any two consecutive IEC tokens of a production white space/comments are accepted: every adjacent pair of "
                                  "input-consuming grammar elements is separated by `_`, or the first always ends / the second always starts with it "
                                  "(pairs inside the rules that spell one lexical token are exempt)", floor=100, floor_what="adjacent element pairs")
     t = Trivia(g)
